@@ -194,8 +194,13 @@ class World:
         self.fns = {}          # pid -> python function
         self.by_obj = {}
 
-    def make(self, pid, sig, klong=False, boom=None, exc="ValueError"):
-        params = (["klong"] if klong else []) + list(sig)
+    def make(self, pid, sig, klong=False, boom=None, exc="ValueError", defaults=None, helper=False):
+        """defaults: {name: value} for some of the x,y,z parameters; helper: a trailing defaulted parameter that is not x,y,z
+        (the  lambda x, k=klong:  idiom)"""
+        defaults = defaults or {}
+        first = min([i for i, p_ in enumerate(sig) if p_ in defaults] or [len(sig)])
+        params = (["klong"] if klong else []) + [p_ if i < first else "%s=%r" % (p_, defaults.get(p_, 0)) for i, p_ in enumerate(sig)] + \
+                 (["k_=None"] if helper else [])
         src = ("def f%d(%s):\n    log.append((%d, (%s)))\n    if BOOM is not None and any(type(a_) in (int, np.int64) and a_ == BOOM for a_ in (%s)):\n"
                "        raise EXC('boom')\n    return TOK + len(log) - 1\n") % (
             pid, ", ".join(params), pid, "".join(p + ", " for p in sig), "".join(p + ", " for p in sig))
@@ -764,6 +769,120 @@ def symbol_finding():
             "req": sx(["form", frames, 5, ["each", ["sym", 40], ["sym", 41]]]), "text": ["sa::5", "pa'[:sa :qq]"]}
 
 
+# ------------------------------------------------------------------------------------------------ part A4: dyadic adverbs, defaulted parameters
+def adverb_cases(rng, tier):
+    """order-sensitive logging dyadic callables under Each-Left / Each-Right / Each-Pair / Over-Neutral / Scan-Over(-Neutral),
+    list and atom operands on each side; the call log must be the definitional expansion of the adverb"""
+    out = []
+    two = [s_ for s_ in SIGS if len(s_) == 2]
+    atoms = [["i", 10], ["i", 4], ["i", -4], ["s", 97, 98]]
+    lists = [[], [["i", 1]], [["i", 1], ["i", 2]], [["i", 3], ["i", 1], ["i", 2]], [["s", 97], ["s", 98, 99]]]
+
+    def txt(v):
+        return lit(v) if v[0] != "l" else "[" + " ".join(lit(x).strip("()") for x in v[1:]) + "]"
+    reps = 1 if tier == "quick" else 4
+    for sig in two:
+        for klong in (False, True):
+            for inside in (False, True):
+                for _ in range(reps):
+                    cases = []
+                    a = rng.choice(atoms + [["l", ["i", 7], ["i", 8]]])
+                    # (a string on the right is a list of characters for the adverbs, not an atom: kept on the left only)
+                    for b in [rng.choice(atoms[:3]), ["l"] + rng.choice(lists), ["l"] + rng.choice(lists[2:])]:
+                        bl = b[1:] if b[0] == "l" else None
+                        cases.append(("%s pa:\\%s" % (txt(a), txt(b)), ["eachleft", a, b], [(a, x) for x in bl] if bl is not None else [(a, b)], bl is not None))
+                        cases.append(("%s pa:/%s" % (txt(a), txt(b)), ["eachright", a, b], [(x, a) for x in bl] if bl is not None else [(b, a)], bl is not None))
+                    vs = rng.choice(lists)
+                    cases.append(("pa:'%s" % txt(["l"] + vs), ["eachpair"] + vs, list(zip(vs, vs[1:])) if len(vs) > 1 else None, True))
+                    a0 = rng.choice(atoms[:3])
+                    for b in [rng.choice(atoms[:3]), ["l"] + rng.choice(lists[:4])]:
+                        bl = b[1:] if b[0] == "l" else [b]
+                        cases.append(("%s pa/%s" % (txt(a0), txt(b)), ["overn", a0, b], ("fold", a0, bl), False))
+                        cases.append(("%s pa\\%s" % (txt(a0), txt(b)), ["scann", a0, b], ("scan", a0, bl, [a0]), False))
+                    vs = rng.choice(lists[:4])
+                    cases.append(("pa\\%s" % txt(["l"] + vs), ["scan"] + vs, ("scan", vs[0], vs[1:], [vs[0]]) if vs else ("scan0",), False))
+                    for text, mform, calls, listres in cases:
+                        w = World()
+                        w.k["pa"] = w.make(1, sig, klong)
+                        stmt = "{0;%s}(7;8;9)" % text if inside else text
+                        try:
+                            res = ["val", w.canon(w.k(stmt))]
+                        except Exception:  # noqa
+                            res = ["err"]
+                        # the definitional expansion
+                        if calls is None:                       # Each-Pair of fewer than two elements: the list itself
+                            want_log, want_res = [], ["val", ["l"] + mform[1:]]
+                        elif isinstance(calls, tuple) and calls[0] == "scan0":
+                            want_log, want_res = [], ["val", ["l"]]
+                        elif isinstance(calls, tuple):
+                            acc, want_log, run = calls[1], [], []
+                            for x in calls[2]:
+                                want_log.append([1, acc, x])
+                                acc = ["pyres", 1, acc, x]
+                                run.append(acc)
+                            if calls[0] == "fold":
+                                want_res = ["val", acc]
+                            else:
+                                want_res = ["val", ["l"] + calls[3] + run] if (calls[2] or mform[0] == "scan") else ["val", calls[1]]
+                        else:
+                            want_log = [[1, x, y] for x, y in calls]
+                            rs = [["pyres", 1, x, y] for x, y in calls]
+                            want_res = ["val", ["l"] + rs] if listres else ["val", rs[0]]
+                        frames = ["frames"] + ([OUTER] if inside else []) + [[[5, ["py", 1, params_sx(sig, klong)]]]]
+                        out.append({"text": [stmt], "sig": params_sx(sig, klong), "form": mform[0], "inside": inside, "impl_res": res,
+                                    "impl_log": w.logs_from(0), "want_res": want_res, "want_log": want_log, "req": sx(["form", frames, 5, mform])})
+    return out
+
+
+def default_cases(rng, tier):
+    """stored callables whose x/y/z parameters partly have default values, and the  lambda x, k=klong:  idiom: every argument
+    supplied must reach the callable (a defaulted x/y/z parameter counts as declared; a defaulted helper parameter does not exist
+    for the interpreter)"""
+    out = []
+    shapes = [(["x", "y"], False, {"y": 7}, False), (["x", "y", "z"], True, {"z": 100}, False), (["x", "y", "z"], False, {"y": 5, "z": 6}, False),
+              (["x"], False, {}, True), (["x", "y"], True, {"y": 3}, True), (["x"], False, {"x": 1}, False)]
+    for sig, klong, defaults, helper in shapes:
+        n = len(sig)
+        a = [["i", 11 * (i + 1)] for i in range(n)]
+        forms = [("direct", "pa(%s)" % ";".join(lit(x) for x in a), ["direct"] + a),
+                 ("at", "pa@[%s]" % " ".join(lit(x) for x in a), ["at"] + a)]
+        if n >= 2:
+            forms.append(("proj", None, ["proj", [["none"]] + [["some", x] for x in a[1:]], a[0]]))
+        if n == 2:
+            forms.append(("overn", "%s pa/[%s]" % (lit(a[0]), lit(a[1])), ["overn", a[0], ["l", a[1]]]))
+            forms.append(("eachleft", "%s pa:\\[%s]" % (lit(a[0]), lit(a[1])), ["eachleft", a[0], ["l", a[1]]]))
+        if n == 1:
+            forms.append(("each", "pa'[%s]" % lit(a[0]), ["each", a[0]]))
+        forms.append(("python", None, None))
+        for form, text, mform in forms:
+            for inside in (False, True):
+                w = World()
+                w.k["pa"] = w.make(1, sig, klong, defaults=defaults, helper=helper)
+                want_log = [[1] + a]
+                one = ["pyres", 1] + a
+                want_res = ["val", ["l", one] if form in ("eachleft", "each") else one]
+                try:
+                    if form == "python":
+                        if inside:
+                            continue
+                        stmts = ["klong['pa'](%s)" % ", ".join(str(x[1]) for x in a)]
+                        res = ["val", w.canon(w.k["pa"](*[x[1] for x in a]))]
+                    else:
+                        stmts = ["pq::pa(;%s)" % ";".join(lit(x) for x in a[1:]), "pq(%s)" % lit(a[0])] if form == "proj" else [text]
+                        if inside:
+                            stmts[-1] = "{0;%s}(7;8;9)" % stmts[-1]
+                        for t_ in stmts:
+                            r = w.k(t_)
+                        res = ["val", w.canon(r)]
+                except Exception as e:  # noqa
+                    res = ["err", type(e).__name__]
+                frames = ["frames"] + ([OUTER] if inside else []) + [[[5, ["py", 1, params_sx(sig, klong)]]]]
+                out.append({"text": stmts, "sig": params_sx(sig, klong) + ["defaults=%r" % defaults] + (["k_=None"] if helper else []), "form": form,
+                            "inside": inside, "impl_res": res, "impl_log": w.logs_from(0), "want_res": want_res, "want_log": want_log,
+                            "req": sx(["form", frames, 5, mform if mform is not None else ["direct"] + a])})
+    return out
+
+
 # ------------------------------------------------------------------------------------------------ part B: histories
 def hist_case(rng, length, forced=None):
     """a history over names pa/pb mixing klong[n]=data, klong[n]=callable, n::{..}, del, read, Klong call, wrapper calls"""
@@ -1003,7 +1122,8 @@ def import_cases():
 # ------------------------------------------------------------------------------------------------ run
 def sweep(chk, rng, tier, hist_count, hist_len):
     bad_prop = bad_corr = None
-    cases = [run_args_case(c) for c in args_cases(rng, tier)] + [run_staged_case(c) for c in staged_cases(rng, tier)]
+    cases = [run_args_case(c) for c in args_cases(rng, tier)] + [run_staged_case(c) for c in staged_cases(rng, tier)] + \
+            adverb_cases(rng, tier) + default_cases(rng, tier)
     mouts = chk.run_model([c["req"] for c in cases])
     seen = set()
     for c, mo in zip(cases, mouts):
